@@ -345,6 +345,12 @@ def select_tasks(case, node):
     return out
 
 
+def default_of(p):
+    """The declared default (a Path object when the declaration gives one)."""
+    d = p['default']
+    return Path(d['v']) if d.get('as_path') else d['v']
+
+
 def py_eq(a, b):
     """Python == between config values (what default elision uses)."""
     try:
@@ -359,12 +365,12 @@ def bind_params(t, data):
         if key in data:
             v = data[key]
         elif 'default' in p:
-            v = p['default']['v']
+            v = default_of(p)
         else:
             raise ModelError('missing-parameter', f'{t.fullname}.{p["name"]}')
         dt = p.get('dtype')
         if dt and v is not None:
-            ok = {'Path': isinstance(v, str), 'int': isinstance(v, int), 'str': isinstance(v, str),
+            ok = {'Path': isinstance(v, (str, Path)), 'int': isinstance(v, int), 'str': isinstance(v, str),
                   'list': isinstance(v, list), 'dict': isinstance(v, dict), 'float': isinstance(v, float),
                   'bool': isinstance(v, bool)}[dt]
             if not ok:
@@ -495,7 +501,7 @@ def param_text(t):
         if p.get('ignore'):
             continue
         v = t.params[p['name']]
-        if p.get('dpdv') and 'default' in p and py_eq(v, p['default']['v']):
+        if p.get('dpdv') and 'default' in p and py_eq(v, default_of(p)):
             continue
         if isinstance(v, Obj):
             r = v.repr()
@@ -566,7 +572,7 @@ def _cd(v):
 def _elided(t, pname):
     for p in t.spec['params']:
         if p['name'] == pname:
-            return bool(p.get('dpdv') and 'default' in p and py_eq(t.params[pname], p['default']['v']))
+            return bool(p.get('dpdv') and 'default' in p and py_eq(t.params[pname], default_of(p)))
     return False
 
 
